@@ -1,10 +1,29 @@
 import Oracle.Proto
 import InfluxQL.Model.Duration
+import InfluxQL.Model.Scanner
 open InfluxQL Oracle
 
 def durErrMsg : DurErr → List Char
   | .invalid => "invalid duration".toList
   | .overflow m u => "overflowed duration ".toList ++ intDigits m ++ u ++ ": choose a smaller duration or INF".toList
+
+def showLexeme (lx : Lexeme) (r : Cursor) : String :=
+  toString lx.tok.toNat ++ "#" ++ toString lx.pos.line ++ ":" ++ toString lx.pos.char ++ ":" ++
+    ((encStr lx.lit).drop 2).toString ++ ":" ++ toString r.off
+
+/-- `ops` then `Scan` until EOF (at most `limit` more tokens). -/
+def runScanOps (ops : List Char) (text : List Char) : String :=
+  let r0 := Cursor.ofRunes text
+  let (outs, r1) := ops.foldl (fun (acc : List String × Cursor) c =>
+      let (lx, r') := if c = 'R' then scanRegex acc.2 else scan acc.2
+      (showLexeme lx r' :: acc.1, r')) ([], r0)
+  let rec go : Nat → Cursor → List String → List String
+    | 0, _, acc => acc
+    | fuel + 1, r, acc =>
+      let (lx, r') := scan r
+      let acc := showLexeme lx r' :: acc
+      if lx.tok = .EOF then acc else go fuel r' acc
+  "|".intercalate (go (text.length + 8) r1 outs).reverse
 
 def handle (stream : String) (args : List String) : String :=
   match stream, args with
@@ -19,6 +38,10 @@ def handle (stream : String) (args : List String) : String :=
     match decInt a with
     | none => "bad-arg"
     | some d => encStr (formatDuration d)
+  | "scan.ops", [ops, a, _] =>
+    match decStr a with
+    | none => "bad-arg"
+    | some s => runScanOps (if ops = "-" then [] else ops.toList) s
   | _, _ => "bad-op"
 
 partial def loop (hin : IO.FS.Stream) (hout : IO.FS.Stream) : IO Unit := do
